@@ -6,4 +6,4 @@ CONSTANTS
 INIT Init
 NEXT Next
 VIEW View
-INVARIANTS TypeOK Sound Complete EmitAtEnd
+INVARIANTS TypeOK Sound Complete QuorumExact EmitAtEnd
